@@ -14,7 +14,7 @@ maps; read cache keyed by tree hash, not by `NodePtr`; candidate paths are sorte
 chosen).  The correspondence stream and the run-to-run / allocator-to-allocator oracle tie the model
 to the crate on this point.
 -/
-import ClvmProofs.Lemmas.BackrefRoundTrip
+import ClvmProofs.Lemmas.BackrefCodec
 
 namespace Clvm.Props.C17
 open Clvm Clvm.Backref Clvm.Serde Clvm.Serde.Backref Clvm.Serde.ReadCache Clvm.Serde.SerBr
@@ -44,7 +44,7 @@ theorem find_path_sound (s : RCL) (hs : RInv s) (id : Tree) (sl : Nat) (b : Byte
       ∃ pl, atomLengthBits (path.length + 1) = .ok (some pl) ∧ pl ≤ sl - 1 :=
   findPath_sound s hs id sl b h
 
-/-- the full round-trip statement: whatever `node_to_stream_backrefs` wrote for `t` (to an unlimited
+/-- the round-trip statement: whatever `node_to_stream_backrefs` wrote for `t` (to an unlimited
 or a size-limited writer) is decoded by the legacy and by the current decoder to `t` again,
 consuming exactly those bytes — unless the decoder's allocator runs into one of its limits
 (`TooManyPairs`, `TooManyAtoms`, `OutOfMemory`). -/
@@ -56,10 +56,17 @@ def RoundTrip : Prop :=
       ((∃ e, deBrNew (out ++ rest) [.sexp] [] c = .error e ∧ limitErr e) ∨
         ∃ c', deBrNew (out ++ rest) [.sexp] [] c = .ok (t, rest, c'))
 
-/-- **`de_br (ser_br t) = t`**, from the lock-step invariant "tracked root = decoder stack", given
-that the path codec is correct (`PathCodec`: the bytes `reversed_path_to_vec_u8` writes for a list of
-directions are walked by `traverse_path` along exactly these directions). -/
-theorem de_br_ser_br_of_codec (codec : PathCodec) : RoundTrip := by
+/-- **The path codec is correct**: the bytes `reversed_path_to_vec_u8` writes for a list of directions
+(terminator bit on top, first step from the root in the least significant bit) are walked by
+`traverse_path` along exactly these directions. -/
+theorem path_codec (path : List Bool) (b : Bytes) (t r : Tree) (h : reversedPathToVecU8 path = .ok b)
+    (hf : follow path.reverse t = some r) : ∃ cost, TraversePath.traversePath b t = .ok (cost, r) :=
+  pathCodec path b t r h hf
+
+/-- **`de_br (ser_br t) = t`** for every tree, from the lock-step invariant "tracked root = decoder
+stack" (`rcl_invariant`), `find_path_sound` and `path_codec`. -/
+theorem de_br_ser_br : RoundTrip := by
+  have codec : PathCodec := pathCodec
   intro t w w' h
   unfold nodeToStreamBackrefs at h
   obtain ⟨out, ho, hd⟩ := serLoop_decodes codec _ [t] rfl [.parse] RCL.new w w' (Tree.pair t Tree.nil) h
@@ -101,7 +108,7 @@ theorem de_br_ser_br_of_codec (codec : PathCodec) : RoundTrip := by
 
 /-- **`ser_br (de_br (ser_br t)) = ser_br t`** (function of content): anything a decoder returns for
 the serializer's output re-serializes to the same bytes. -/
-theorem ser_de_ser_of_codec (codec : PathCodec) (t t' : Tree) (b rest' : Bytes) (c c' : Ctr)
+theorem ser_de_ser (t t' : Tree) (b rest' : Bytes) (c c' : Ctr)
     (hinv : c.pairs + c.ghostPairs ≤ Gen.maxNumPairs)
     (hser : nodeToBytesBackrefs t = .ok b) (hde : deBrNew b [.sexp] [] c = .ok (t', rest', c')) :
     nodeToBytesBackrefs t' = .ok b := by
@@ -110,7 +117,7 @@ theorem ser_de_ser_of_codec (codec : PathCodec) (t t' : Tree) (b rest' : Bytes) 
   | error e => simp [hw] at hser
   | ok w' =>
     simp only [hw, Except.ok.injEq] at hser
-    obtain ⟨out, ho, hd⟩ := de_br_ser_br_of_codec codec t _ w' hw
+    obtain ⟨out, ho, hd⟩ := de_br_ser_br t _ w' hw
     have hb : b = out := by rw [← hser, ho]; rfl
     have := (hd [] c hinv).2
     rw [List.append_nil, ← hb, hde] at this
